@@ -33,6 +33,7 @@ RULE += (
          'Links followed without the cookie and first visits as '
          'machine rules. ')
 RULE += ('Round 8: ids taken from a method / attribute named with id=. ')
+RULE += ('Round 10: trees whose ids contain / or , next to the paths they could be confused with. ')
 ASSUMPTIONS = [
     'sibling ids are unique (the state identifies nodes by id path)',
     'the model is the set of expanded id paths; rows are compared in '
@@ -837,6 +838,13 @@ def plan(tier, seed):
                 sp = [dup_leaves(x) for x in sp]
             shards.append(dict(kind='histories', specs=sp,
                                opts=o, maxlen=maxlen))
+    # ids that contain the character paths are often joined with
+    shards.append(dict(kind='histories', maxlen=5, specs=[
+        ['root', [['a', [['b', [['x', []]]]]], ['a/b', [['y', []]]]]],
+        ['r', [['a', [['b', []], ['b/c', [['z', []]]]]],
+               ['a/b', [['c', [['w', []]]]]]]],
+        ['r', [['a,b', [['c', []]]], ['a', [['b,c', [['d', []]]]]]]],
+    ]))
     shards.append(dict(kind='codec'))
     for i in range(8 if tier == 'quick' else 16):
         shards.append(dict(kind='machine', seed=seed * 1000 + i,
